@@ -309,6 +309,10 @@ fn do_call(lvl: &PriceLevel, generator: &UuidGenerator, op: &str) -> String {
             Err(e) => format!("pkg:err:{}", e.to_string().replace(' ', "_")),
         },
         "NEXT" => format!("id:{}", generator.next()),
+        // observers of the generator (logging, serialisation): must not disturb the sequence (only in `nomodel` programs)
+        "DBG" => format!("dbg:{}", format!("{:?}", generator).len().min(1)),
+        "GSER" => format!("dbg:{}", serde_json::to_string(generator).map(|s| s.len().min(1)).unwrap_or(0)),
+        "GCLONE" => "dbg:1".to_string(),
         _ => format!("error:{op}"),
     }
 }
